@@ -20,6 +20,8 @@ from . import hmodel
 
 class Ctx:
     def __init__(self, prop, tier, seed):
+        import time
+        t0 = time.time()
         self.prop = prop
         self.tier = tier
         self.facts = F.load()
@@ -31,6 +33,7 @@ class Ctx:
         self.roles = dispatch.Roles(self.facts)
         self.hmodel = hmodel.HandlerModel(self.facts, self.oracle, self.dispatch, self.roles)
         self.check = core.Check(prop, tier, seed)
+        self.check.t0 = t0  # wall time includes fact extraction / loading
         self._ref = {}
 
     def reference(self, name):
